@@ -82,7 +82,7 @@ def lit_of(v):
     return '[' + ','.join(lit_of(x) for x in v) + ']'
 
 
-KEY_POOL = [0, -0.0, 1, 1.0, 2, 0.5, 'a', 'A', 'ab', '', True, False, [1], [1, 2], ['a'], [[1], 2], [], [True], [0], [-0.0]]
+KEY_POOL = [0, -0.0, 1, 1.0, 2, 0.5, 'a', 'A', 'ab', '', True, False, [1], [1, 2], ['a'], [[1], 2], [], [True], [0], [-0.0], [[1, 2], 3], [0, [[2], 'a']]]
 
 
 def gen_history(rng, n, feats, avoid):
@@ -149,8 +149,16 @@ def gen_history(rng, n, feats, avoid):
                 feats.add('set-through-variable')
         elif op == 'mutate' and arrvars and 'key-mutation' not in avoid:
             var = rng.choice(sorted(arrvars))
-            stmts.append('%s pushBack 9' % var)
-            feats.add('key-array-mutated-later')
+            inner = [i for i, x in enumerate(arrvars[var]) if isinstance(x, list)]
+            if inner and rng.random() < 0.6:
+                # the array the key was built from is changed one level down: a key is captured by value all the way
+                i = rng.choice(inner)
+                stmts.append(rng.choice(['(%s select %d) pushBack 9', '(%s select %d) set [0, 77]']) % (var, i))
+                feats.add('key-array-mutated-later')
+                feats.add('key-inner-array-mutated-later')
+            else:
+                stmts.append('%s pushBack 9' % var)
+                feats.add('key-array-mutated-later')
         elif op == 'get':
             pass
         dump(step, sorted(model))
